@@ -300,3 +300,44 @@ def plan_C10(chk, tier, seed):
 
 
 PLANS.update({"C07": plan_C07, "C08": plan_C08, "C09": plan_C09, "C10": plan_C10})
+
+
+def plan_C15(chk, tier, seed):
+    cfgs = ["none", "all"] if tier == "quick" else ALL8
+    simple(chk, "MC_RoundTrip", cfgs, ["C15"], ["TypeOK", "RoundTrip", "TypeDecodeFaithful", "OutputCanonical", "Emit"])
+    return ("every bidirectional type (ClientPin / CredentialManagement (+ parameters) / LargeBlobs requests; GetInfo / "
+            "ClientPin / LargeBlobs responses; hmac-secret input; options; three extension maps; GetInfo options and "
+            "certifications; rp, user, descriptors, parameters; COSE keys; all string- and number-valued enumerations) "
+            "over the member-subset and value generators: from the model's canonical bytes the real code must decode "
+            "the value AND re-encode to the same bytes, and for constructible types the value built through the "
+            "public API must encode to those bytes; the rp icon exception is asserted as such")
+
+
+def plan_C16(chk, tier, seed):
+    cfgs = ALL8 + ["all+arb"]
+    inv = ["TypeOK", "FeatureMonotone", "Emit"]
+    vecs = {}
+    for cfg in cfgs:
+        run = "C16.MC_Features.%s" % cfg
+        r = tlc("MC_Features", scenario_cfg(cfg, "MC_Cases", inv), run, workers=8, timeout=1800)
+        if not r["ok"]:
+            raise ToolError("TLC %s failed (model-level):\n%s" % (run, "\n".join(r["log"][-40:])))
+        log("TLC %s: %d distinct states, %d vectors, %.1fs" % (run, r["distinct"], r["n_vec"], r["wall"]))
+        chk.add_tlc(r)
+        vecs[cfg] = sorted(open(r["vec_path"]).read().splitlines())
+        judge_vectors(chk, cfg, r, run, ["C16"])
+    # the model's own transcripts must be identical in every configuration
+    ref = vecs["none"]
+    for cfg in cfgs:
+        if vecs[cfg] != ref:
+            raise ToolError("model transcripts differ between configurations none and %s" % cfg)
+    chk.extra["configurations"] = cfgs
+    return ("the common corpus (requests and responses built only from members that exist without any feature; every "
+            "pair of optional members; LargeBlobs config absent or empty) is decoded / encoded by the model under each "
+            "of the 8 feature configurations with the invariant 'exactly as under the empty configuration' "
+            "(FeatureMonotone) and a table-level ASSUME over all 64 pairs of configurations; the same vectors are then "
+            "replayed by 9 harness builds (8 configurations + all,std,arbitrary) and every build must produce the one "
+            "expected transcript")
+
+
+PLANS.update({"C15": plan_C15, "C16": plan_C16})
